@@ -41,7 +41,9 @@ def gen_input(r, source, n):
     return [r.randrange(-20, 41) for _ in range(n)]
 
 
-TERMS = ["cv", "cs", "cx", "ci", "cnt", "fe", "red", "find", "findix", "first", "firstix", "any", "all"]
+TERMS = ["cv", "cs", "cx", "ci", "cnt", "fe", "red", "find", "findix", "first", "firstix", "any", "all",
+         "sum", "min", "max", "fold", "minby", "maxby", "minkey", "maxkey"]
+RED_FAMILY = {"red", "sum", "min", "max", "fold", "minby", "maxby", "minkey", "maxkey"}
 
 
 def gen_case(r, cid, source, chain, lens, big=False):
@@ -64,6 +66,12 @@ def gen_case(r, cid, source, chain, lens, big=False):
     term = r.choice(TERMS)
     if term in ("findix", "firstix") and not has_ix:
         term = "find" if term == "findix" else "first"
+    if term in ("sum", "fold") and ty != "val":
+        term = "min"
+    if term == "fold":
+        term = "fold:%d:%s" % (r.randrange(-5, 6), r.choice(["add", "xor", "min", "max"] if nt2 != 1 else ["add", "sub", "poly"]))
+    elif term in ("minkey", "maxkey"):
+        term = "%s:%d" % (term, r.choice([2, 3, 5, 7]))
     if term == "red":
         if ty != "val":
             op = r.choice(["min", "max"])
@@ -83,6 +91,8 @@ def gen_case(r, cid, source, chain, lens, big=False):
         ops = ops[:-2]
         if term.startswith("red:") and nt1 != 1 and term.split(":")[1] in ("sub", "poly"):
             term = "red:add"
+        if term.startswith("fold:") and nt1 != 1 and term.split(":")[2] in ("sub", "poly"):
+            term = "fold:0:add"
     known = 1 if gen_harness.SOURCES[source][2] else 0
     sched = [r.randrange(0, 6) for _ in range(r.choice([0, 5, 20, 60]))]
     line = "id=%d shape=%s known=%d in=%s ops=%s term=%s avail=%d sched=%s fuel=100000" % (
@@ -296,7 +306,14 @@ def analyse(cases, impl, model, full):
             continue
         # --- K3 result correspondence (C01-C04, C06, C07, C09, C15b)
         if af["res"] != mf["res"]:
-            mism("result", c, af["res"], mf["res"])
+            same = False
+            if term in ("minkey", "maxkey") and nt2 != 1 and af["res"].startswith("O:") and mf["res"].startswith("O:") \
+                    and af["res"] != "O:-" and mf["res"] != "O:-":
+                # ties: any extremal element is allowed when the combination order depends on the schedule
+                m_ = int(cf["term"].split(":")[1])
+                same = int(af["res"][2:]) % m_ == int(mf["res"][2:]) % m_ and af["res"][2:] in (cf["in"].split(",") + [af["res"][2:]])
+            if not same:
+                mism("result", c, af["res"], mf["res"])
         # --- params / kind (C12)
         ip = af["params"].split("|")[0]
         if ip != mf["params"]:
